@@ -92,6 +92,11 @@ func run(c *vk.Ctx) {
 		{"controller+querycache", drive.Cfg{Controller: true, ControllerTTL: time.Nanosecond, QueryCache: true}},
 		{"controller+itercache", drive.Cfg{Controller: true, ControllerTTL: time.Nanosecond, CheckIterCache: true, IterCacheTTL: time.Hour}},
 		{"controller+itercache(ttl 300ms)", drive.Cfg{Controller: true, ControllerTTL: time.Nanosecond, CheckIterCache: true, IterCacheTTL: 300 * time.Millisecond}},
+		// the two cache TTL settings differ (the controller uses both, whichever cache is enabled), and the
+		// workload is quiet for longer than the shorter one: before the first run after the write
+		// ("late-run"), or between the completed run and the repeated requests ("quiet-gap")
+		{"controller+querycache(iterator ttl 150ms)|quiet-gap", drive.Cfg{Controller: true, ControllerTTL: time.Nanosecond, QueryCache: true, IterCacheTTL: 150 * time.Millisecond}},
+		{"controller+itercache(query ttl 50ms)|late-run", drive.Cfg{Controller: true, ControllerTTL: time.Nanosecond, CheckIterCache: true, IterCacheTTL: time.Hour, QueryCacheTTL: 50 * time.Millisecond}},
 	} {
 		s, err := drive.NewShared(x.cfg, base)
 		if err != nil {
@@ -245,6 +250,10 @@ func history(c *vk.Ctx, cs cfgSrv, p *sem.Prepared, kind string, warm, second []
 	ack := clock.Add(1) // the write is acknowledged at this point of the logical clock
 	c.Count("writes", 1)
 	time.Sleep(5 * time.Millisecond)
+	if strings.HasSuffix(cs.name, "|late-run") {
+		time.Sleep(120 * time.Millisecond) // pacing only: nothing is asked, so no run starts meanwhile
+		c.Count("histories_with_late_first_run", 1)
+	}
 	after := ref.NewCase(p.Ref, cur(), nil, extra...)
 	// Clean mode (every other history): nothing that shares a sub-problem with the judged requests is asked
 	// while the invalidation is pending — the run is triggered by requests on an object that has no tuples.
@@ -283,6 +292,10 @@ func history(c *vk.Ctx, cs cfgSrv, p *sem.Prepared, kind string, warm, second []
 		return
 	}
 	time.Sleep(5 * time.Millisecond)
+	if strings.HasSuffix(cs.name, "|quiet-gap") {
+		time.Sleep(250 * time.Millisecond) // pacing only: the store and the server are left alone
+		c.Count("histories_with_quiet_gap_after_the_run", 1)
+	}
 	// 5. every request again: must be fresh
 	for _, rq := range append(append([]sem.Request{}, warm...), second...) {
 		kNew := after.Eval(rq.User).K(rq.Object, rq.Relation)
